@@ -309,7 +309,7 @@ def oracle(case, out):
             bad("flow_keeps_connectivity", "t differs")
         if not out["is_new_object"]:
             bad("flow_returns_new_mesh", "same object returned")
-        rt = 1e-4 if case["vdtype"] == "float32" else 1e-9
+        rt = 1e-3 if case["vdtype"] == "float32" else 1e-9
         if abs(out["area"] - 1) > rt:
             bad("flow_result_unit_area", f"area {out['area']}")
         if np.abs(np.array(out["centroid"])).max() > rt:
